@@ -353,4 +353,64 @@ theorem union_sort_leafref_partial (ms : List Plug) (a b : UVal) (hi : a.idx ≠
 example : storeU lrefU Generated.LYD_HINT_DATA [49] = .ok ⟨0, .num 1⟩ ∧ storeU lrefU Generated.LYD_HINT_DATA [120, 121] = .ok ⟨1, .str [120, 121]⟩ ∧
     sortUVWith false lrefU ⟨0, .num 1⟩ ⟨1, .str [120, 121]⟩ = 0 ∧ sortUVWith true lrefU ⟨0, .num 1⟩ ⟨1, .str [120, 121]⟩ = 1 ∧ cmpEqU lrefU ⟨0, .num 1⟩ ⟨1, .str [120, 121]⟩ = false := by decide
 
+/-! ## the `validate` callback: members that need an instance in the data tree -/
+
+/-- `union_validate_iff` (`lyplg_type_validate_union` → `union_find_type(resolve = 1)`): after validation the value is held by member `k`
+    as `v` ⇔ member `k` stores the ORIGINAL text as `v` and `v` resolves in the tree (always, unless the member is a leafref with
+    `require-instance true`: then a target instance with the same canonical value exists), and every earlier member either refuses the text
+    or stores it as a value that does not resolve. -/
+theorem union_validate_iff (ms : List Plug) (targets : List Bytes) (hints : Nat) (s : Bytes) (k : Nat) (v : Value) :
+    validateU ms targets hints s = .ok ⟨k, v⟩ ↔
+      ∃ m, ms[k]? = some m ∧ m.store hints s = .ok v ∧ m.resolves targets v = true ∧
+        ∀ j, j < k → ∀ mj : Plug, ms[j]? = some mj →
+          (∃ e, mj.store hints s = .error e) ∨ ∃ w, mj.store hints s = .ok w ∧ mj.resolves targets w = false := by
+  unfold validateU
+  cases hf : findTypeV targets ms 0 hints s with
+  | none =>
+    simp only
+    constructor
+    · intro h; cases h
+    · rintro ⟨m, hg, h1, h2, h3⟩
+      have : findTypeV targets ms 0 hints s = some ⟨k, v⟩ :=
+        (findTypeV_some_iff targets ms 0 hints s ⟨k, v⟩).mpr ⟨k, m, by simp, hg, h1, h2, h3⟩
+      rw [hf] at this; cases this
+  | some w =>
+    simp only
+    constructor
+    · intro h
+      injection h with h
+      subst h
+      obtain ⟨k', m, hk, hg, h1, h2, h3⟩ := (findTypeV_some_iff targets ms 0 hints s _).mp hf
+      simp only [Nat.zero_add] at hk
+      subst hk
+      exact ⟨m, hg, h1, h2, h3⟩
+    · rintro ⟨m, hg, h1, h2, h3⟩
+      have : findTypeV targets ms 0 hints s = some ⟨k, v⟩ :=
+        (findTypeV_some_iff targets ms 0 hints s ⟨k, v⟩).mpr ⟨k, m, by simp, hg, h1, h2, h3⟩
+      rw [hf] at this
+      injection this with this
+      rw [this]
+
+/-- Without `require-instance` members validation changes nothing: the validated value is the stored one. -/
+theorem union_validate_eq_store (ms : List Plug) (hno : ∀ m ∈ ms, m.reqInst = false) (targets : List Bytes) (hints : Nat) (s : Bytes) :
+    validateU ms targets hints s = storeU ms hints s := by
+  unfold validateU storeU
+  rw [findTypeV_eq_findType targets ms 0 hints s hno]
+
+/-- `union { type leafref { path "../tg"; } type string { length 0..3; } }`, `tg` a leaf-list of int8 -/
+def lrefrU : List Plug := [lrefrPlug (MTy.base (.int .int8 [])).plug, (MTy.base (.str [(0, 3)])).plug]
+
+-- the member that holds a value can CHANGE at validation: "1" is stored by the leafref member (`lyd_new_term`, parsers); validated against a
+-- tree whose target leaf-list holds 1 it stays there, against a tree without such an instance it becomes the string "1"; "+1" likewise
+-- (it resolves through its canonical value "1"); with neither a target nor a fitting string the value is refused
+example : storeU lrefrU Generated.LYD_HINT_DATA [49] = .ok ⟨0, .num 1⟩ ∧
+    validateU lrefrU [[49], [55]] Generated.LYD_HINT_DATA [49] = .ok ⟨0, .num 1⟩ ∧
+    validateU lrefrU [[55]] Generated.LYD_HINT_DATA [49] = .ok ⟨1, .str [49]⟩ ∧
+    validateU lrefrU [[49]] Generated.LYD_HINT_DATA [43, 49] = .ok ⟨0, .num 1⟩ ∧
+    validateU lrefrU [] Generated.LYD_HINT_DATA [43, 49] = .ok ⟨1, .str [43, 49]⟩ ∧
+    validateU lrefrU [] Generated.LYD_HINT_DATA [45, 49, 50, 56] = .error .NoMember := by decide
+example : ∃ m, lrefrU[1]? = some m ∧ m.resolves [[55]] (.str [49]) = true :=
+  let h := (union_validate_iff lrefrU [[55]] Generated.LYD_HINT_DATA [49] 1 (.str [49])).mp (by decide)
+  ⟨h.choose, h.choose_spec.1, h.choose_spec.2.2.1⟩
+
 end LyModel.Props.C03Union
